@@ -325,7 +325,7 @@ func streamC29(h *H) {
 	}
 
 	// --- hist: valid histories, every crash point
-	nh := h.N(10, 240)
+	nh := h.N(10, 120)
 	for i := 0; i < nh; i++ {
 		rp := c29Init(pool[h.Intn(4)])
 		steps := 3 + h.Intn(5)
@@ -340,7 +340,7 @@ func streamC29(h *H) {
 	}
 
 	// --- many: more keys than maxKeys; hints
-	nm := h.N(2, 12)
+	nm := h.N(2, 6)
 	for i := 0; i < nm; i++ {
 		rp := c29Init("p0")
 		// total number of keys: exactly maxKeys, maxKeys+1 (boundary, always), then 20..24
@@ -411,7 +411,7 @@ func streamC29(h *H) {
 	for _, id := range c29KeyIDs(foreign.st) {
 		foreignKey = foreign.st["key/"+id]
 	}
-	nb := h.N(12, 300)
+	nb := h.N(12, 160)
 	for i := 0; i < nb; i++ {
 		rp := c29Init(pool[h.Intn(2)])
 		// one or two more good keys
